@@ -221,7 +221,10 @@ def run_property(pid, units, tier, level, level_note_assumptions, not_decided, s
                             if n == 0:
                                 undecided.append(f"UNDECIDED unit={u.uid} harness={h} reason=zero-obligations")
                                 continue
-                            if u.expect_cover and (not covers or any(c["status"] != "Satisfied" for c in covers)):
+                            has_failure = any(c["status"] == "Failure" for c in checks)
+                            # vacuity guard - only when nothing failed: Kani assumes an assertion after checking it, so a
+                            # failing obligation can make the covers behind it unreachable; a failure must never be hidden
+                            if not has_failure and u.expect_cover and (not covers or any(c["status"] != "Satisfied" for c in covers)):
                                 undecided.append(f"UNDECIDED unit={u.uid} harness={h} reason=vacuity-guard(cover not satisfied)")
                                 continue
                             if u.complete:
